@@ -137,6 +137,12 @@ func classify(ops []Op) map[string]bool {
 			if deleted[key] {
 				l["re-add-of-deleted-id"] = true
 			}
+			if op.Why == "replace" {
+				l["item-replaced-by-delete-and-add"] = true
+				if afterSnapshot {
+					l["item-replaced-after-a-snapshot"] = true
+				}
+			}
 			if op.Meta == nil {
 				l["add-without-metadata"] = true
 			}
